@@ -8,7 +8,7 @@ HOLD = "INVARIANTS TypeOK SizeBound ReportedExactlyOnce ViewBookkeeping PeersRes
 
 
 def gen(name, note, spec, peers, limit, workers, callers, delay, rounds, drops, inbound, fail, calls, api=0, gc=True,
-        atomic=False, signed=False, serialized=False, direct=False, maxlen=None, tail=""):
+        atomic=False, signed=False, serialized=False, direct=False, maxlen=None, tail="", wanted=()):
     b = lambda x: "TRUE" if x else "FALSE"
     t = "\\* %s\nSPECIFICATION %s\nCONSTANTS\n" % (note, spec)
     for k, v in [("Peers", peers), ("Self", '"self"'), ("Limit", limit), ("Workers", workers), ("Callers", callers),
@@ -17,7 +17,7 @@ def gen(name, note, spec, peers, limit, workers, callers, delay, rounds, drops, 
                  ("SignedWant", b(signed)), ("Serialized", b(serialized)), ("DirectAPI", b(direct))]:
         t += "  %s = %s\n" % (k, v)
     if maxlen:
-        t += "  MaxLen = %d\n" % maxlen
+        t += "  MaxLen = %d\n  Wanted = {%s}\n" % (maxlen, ", ".join('"%s"' % g for g in wanted))
     t += "CHECK_DEADLOCK FALSE\n" + tail
     open(os.path.join(HERE, name + ".cfg"), "w").write(t)
 
@@ -54,8 +54,10 @@ gen("V_atomicPeers", "variant: Peers() checks and parks atomically: nobody is st
     atomic=True, tail=V + "INVARIANTS TypeOK NoStrandedWaiter PeersResult\n")
 gen("V_signedWant", "variant: discover() compares size >= limit: no round above the limit", "Spec", P3, 2, W2, "{}", 1, 2, 0, 0, 0, 0,
     signed=True, tail=V + "INVARIANTS TypeOK SizeBound\nPROPERTIES RoundOnlyBelowLimit\n")
-gen("V_serialized", "variant: a worker's [re-check, Add, callback, Protect] and Discard exclude each other", "Spec", P2, 2, W2, "{}", 1, 2, 1, 1, 0, 0,
-    serialized=True, tail=V + "INVARIANTS TypeOK SizeBound ReportedExactlyOnce ReportedInOrder ViewConsistent InSetConnected ProtectedInSetOrPending\n")
+SER = "INVARIANTS TypeOK SizeBound ReportedExactlyOnce ReportedInOrder ViewConsistent InSetConnected ProtectedInSetOrPending\n"
+gen("V_serialized", "variant: a worker's [re-check, Add, callback, Protect] and Discard exclude each other", "Spec", P2, 1, W1, "{}", 1, 3, 2, 1, 0, 0,
+    serialized=True, tail=V + SER)
+gen("V_serialized2", "variant Serialized, thorough: two workers", "Spec", P2, 2, W2, "{}", 1, 2, 1, 1, 0, 0, serialized=True, tail=V + SER)
 
 # ---- liveness (no VIEW: act is part of the state)
 gen("Live", "liveness as is (weak fairness of the package's goroutines; rounds end, dials return)", "LiveSpec", P2, 1, W1, '{"c1"}', 1, 0, 1, 0, 1, 1,
@@ -64,6 +66,15 @@ gen("Live_waiter", "liveness witness: a blocked Peers(ctx) caller is not served 
     P2, 1, W1, '{"c1"}', 1, 0, 0, 0, 0, 1, gc=False, tail="PROPERTIES WaiterServed\n")
 gen("Live_waiter_atomic", "liveness, variant AtomicPeers: every blocked caller is served once the set has members", "LiveSpec",
     P2, 1, W1, '{"c1"}', 1, 0, 0, 0, 0, 1, gc=False, atomic=True, tail="PROPERTIES WaiterServed\n")
+
+# ---- coverage goals (MCDiscovery.tla, one worker): GoalCover "fails" when every goal has been reached
+GT = "VIEW state\nACTION_CONSTRAINT CoarseSchedule\nINVARIANTS GoalCover\n"
+GN = "behaviours that reach rarely taken decision branches (GoalCover in MCDiscovery.tla)"
+gen("Goals_limit", GN, "SpecB", P3, 2, W2, "{}", 1, 2, 0, 0, 0, 0, gc=False, maxlen=200, tail=GT, wanted=("full", "overshootround", "inset"))
+gen("Goals_one", GN, "SpecB", P2, 1, W1, "{}", 1, 3, 1, 1, 1, 0, gc=False, maxlen=200, tail=GT,
+    wanted=("refused", "redial", "self", "dialfail", "noop", "absent", "refill", "connected"))
+gen("Goals_callers", GN, "SpecB", P2, 1, W1, '{"c1", "c2"}', 1, 1, 0, 0, 0, 3, gc=False, maxlen=200, tail=GT,
+    wanted=("wake2", "cancelpark", "cancel"))
 
 # ---- simulation for the replay (MCDiscovery.tla, -simulate file=...)
 SIMINV = "ACTION_CONSTRAINT CoarseSchedule\nINVARIANTS TypeOK SizeBound ReportedExactlyOnce ViewBookkeeping PeersResult\n"
